@@ -457,6 +457,9 @@ class C14(Check):
             ("flt-nest2", lambda: batches("f", (s for _, s in
                                                 gen.nest2(FLT_CTORS, FLT_CTORS, FFILL)))),
             ("int-negsums", lambda: batches("i", self.gen_negsums())),
+            ("int-hash-twins", lambda: batches("i", (
+                s for s in gen.twin_trees([(C(-1), C(-2)), (C(0), C(5)), (C(1), C(2))])
+                if s[0] != "tuple"))),
             ("histories", lambda: (("h", (op,)) for op in OPS)),
         ]
         if tier == "thorough":
@@ -493,7 +496,10 @@ class C14(Check):
             spec = specs[i]
 
             def one(s):
-                f = check_specs((s,), floating)
+                try:
+                    f = check_specs((s,), floating)
+                except refsem.UnknownVariable:
+                    return None         # the localiser's placeholder names are not C variables
                 return f[0][0] if f else None
             locs = localise(spec, one)
             if not locs:
